@@ -60,10 +60,16 @@ func (m *Model) RecordReading(val float32) (*traits.MeterReading, error) {
 
 // Reset resets the meter to zero, updating both start and end times to now.
 func (m *Model) Reset() (*traits.MeterReading, error) {
-	now := timestamppb.New(m.meterReading.Clock().Now())
-	return m.UpdateMeterReading(&traits.MeterReading{Usage: 0, StartTime: now, EndTime: now},
+	now := m.meterReading.Clock().Now()
+	return m.UpdateMeterReading(&traits.MeterReading{Usage: 0},
 		// force usage (which is zero) to be updated
-		resource.WithUpdatePaths("usage", "start_time", "end_time"))
+		resource.WithUpdatePaths("usage"),
+		// the times are set on the merged value: merging timestamps keeps the old seconds or nanos where the new ones are zero
+		resource.InterceptAfter(func(old, new proto.Message) {
+			newVal := new.(*traits.MeterReading)
+			newVal.StartTime = timestamppb.New(now)
+			newVal.EndTime = timestamppb.New(now)
+		}))
 }
 
 func (m *Model) PullMeterReadings(ctx context.Context, opts ...resource.ReadOption) <-chan PullMeterReadingChange {
